@@ -83,15 +83,16 @@ Fixpoint vflat (t : ty) (v : val) : list val :=
 Definition trailer : list Z := [165; 90].
 
 (* one correspondence case: type, value, bytes produced by the real class, Kafka-table
-   layout of the struct (if stated).  Result: value in the model's domain?  model bytes =
-   real bytes?  model decode of (real bytes ++ trailer) = (value, trailer)?  bytes of the
-   Kafka table layout = real bytes? *)
-Definition run_case (c : ty * val * list Z * option ty) : bool * bool * bool * option bool :=
+   layout of the struct (if stated).  Result: value canonical ([wt])?  value in the wider
+   domain ([wtu], dicts in any order)?  model bytes = real bytes?  model decode of
+   (real bytes ++ trailer) = (value with its dicts sorted, trailer)?  bytes of the Kafka
+   table layout = real bytes? *)
+Definition run_case (c : ty * val * list Z * option ty) : bool * bool * bool * bool * option bool :=
   let '(t, v, real, spec) := c in
-  (wt t v,
+  (wt t v, wtu t v,
    zs_eqb (enc t v) real,
    match dec t (real ++ trailer) with
-   | Some (v', r) => val_eqb v' v && zs_eqb r trailer
+   | Some (v', r) => val_eqb v' (vnorm v) && zs_eqb r trailer
    | None => false
    end,
    match spec with
